@@ -118,9 +118,12 @@ def obligations(tier):
         obs.append(Ob("C07." + f, K, f, 200, what=w + ": silent exactly when the Python relation holds; negations complementary"))
     for part in ("0,0", "0,1", "1,0", "1,1", "0,2", "1,2", "0,3", "0,4"):
         obs.append(Ob("C07.eq_grid", K, "eq_grid", 300, part=part, what="IEEE tolerance grid (left operand float|int; raw / in a list / dict value / dict in a list / tuple in a dict): equal iff |a-b| < delta, both orders, assert_equal/not_equal agree"))
+    obs.append(Ob("C07.eq_special", K, "eq_special", 200, what="inf / -inf / 1e308 and delta=None (documented as the default delta): equal iff a == b or |a-b| < .001, both orders, raw / list / dict value"))
+    obs.append(Ob("C07.eq_sets", K, "eq_sets", 200, what="sets / frozensets of floats next to the tolerance (all pairs of subsets of a 4-element grid): verdict independent of the argument order; equal sets equal; an element without a partner => not equal"))
     obs.append(Ob("C07.order_reach", K, "order_reach", 60, expect="refute", what="twin: assert_less fails for some doubles"))
     for k in range(12):
         obs.append(Ob("C07.public_rel", P, "public_rel", 120, part=str(k), what="public assert call, raw/proxied operands: truthy and recorded as triggered exactly when the relation does not hold"))
+    obs.append(Ob("C07.public_lazy", P, "public_lazy", 200, what="one-shot lazy results (map/filter/zip/generator/reversed/enumerate/iterator/range) as an operand of assert_equal / assert_not_equal, raw or proxied, either side: verdict = relation between the items and the expected list"))
     obs.append(Ob("C07.public_unary", P, "public_unary", 120, what="assert_true/false/is_none/is_not_none, raw/proxied"))
     obs.append(Ob("C07.public_error", P, "public_error", 120, what="an error operand makes each of 16 assertion forms fail"))
     obs.append(Ob("C07.public_kwargs", P, "public_kwargs", 120, what="explanation=/context=/assertion= do not change the verdict"))
